@@ -365,7 +365,12 @@ def rule_constraints(ctx):
     ctx.rule(R, "the secondary locations of a `signal assignment` finding are all constraints mentioning the signal: every `===` and every `<==` statement is recorded as a constraint over both of its sides, and the lookup scans both sides of every recorded constraint")
     import alpha
     import sgrep
+    import c08eval
 
+    if c08eval.rule(ctx, R, "constraints"):
+        # decided by evaluating the whole pass on the table of rules/c08eval.py (`<==` and `===` constraints over scalars and two
+        # elements of one array); the shape obligations below are the fallback
+        return
     vs = find_fn(SA, "visit_statement")
     if vs is None:
         return ctx.missing(R, "signal_assignments::visit_statement")
